@@ -646,11 +646,15 @@ Proof. split; [reflexivity|now left]. Qed.
 Lemma tabs_ok_comment text : tabs_ok true false true text.
 Proof. split; [discriminate|now left]. Qed.
 
+Lemma popn_S n x acc : popn (S n) x acc =
+  match pop1 false false x with PopOk c x' => popn n x' (acc ++ c) | PopEOF x' => PopEOF x' | PopMIL => PopMIL end.
+Proof. reflexivity. Qed.
+
 Lemma popn_reads : forall n x acc text x', popn n x acc = PopOk text x' -> exists t, text = acc ++ t /\ reads false x t x'.
 Proof.
-  induction n as [|n IH]; intros x acc text x' H; cbn [popn] in H.
-  - inversion H; subst. exists []. split; [now rewrite app_nil_r|apply reads_refl].
-  - destruct (pop1 false false x) as [c x1|x1|] eqn:E; try discriminate.
+  induction n as [|n IH]; intros x acc text x' H.
+  - cbn [popn] in H. inversion H; subst. exists []. split; [now rewrite app_nil_r|apply reads_refl].
+  - rewrite popn_S in H. destruct (pop1 false false x) as [c x1|x1|] eqn:E; try discriminate.
     destruct (IH _ _ _ _ H) as [t [-> Hr]]. exists (c ++ t). split; [now rewrite app_assoc|].
     apply (reads_trans false x c x1); [|exact Hr]. apply (pop1_reads false false false); [assumption|apply tabs_ok_plain].
 Qed.
@@ -659,14 +663,77 @@ Qed.
 Lemma same_pos_trans x y z : same_pos x y -> same_pos y z -> same_pos x z.
 Proof. intros (A & B & C) (D & E & F). repeat split; congruence. Qed.
 
+Lemma ident_loop_S fuel value x : ident_loop (S fuel) value x =
+  match rest x with
+  | [] => IDone value x
+  | c :: _ =>
+      if negb (is_ident_char c) then IDone value x
+      else match pop1 false false x with
+           | PopOk t x' => ident_loop fuel (value ++ t) x'
+           | PopEOF _ => IExn UnexpectedEOF
+           | PopMIL => IExn MaybeInfiniteLoop
+           end
+  end.
+Proof. reflexivity. Qed.
+Lemma lc_loop_S fuel value x : lc_loop (S fuel) value x =
+  match peek1 (rest x) with
+  | None => LDone value x
+  | Some (c, _) =>
+      if is_nl c then LDone value x
+      else match pop1 false false x with
+           | PopMIL => LMIL
+           | PopEOF x' => LDone value x'
+           | PopOk t x' => lc_loop fuel (value ++ t) x'
+           end
+  end.
+Proof. reflexivity. Qed.
+Lemma string_loop_S fuel value x : string_loop (S fuel) value x =
+  match peek1 (rest x) with
+  | None => SDone value false x
+  | Some _ =>
+      match pop1 false true x with
+      | PopMIL => SMIL
+      | PopEOF x' => string_loop fuel value x'
+      | PopOk c x' => if str_eqb c [34%N] then SDone (value ++ c) true x' else string_loop fuel (value ++ c) x'
+      end
+  end.
+Proof. reflexivity. Qed.
+Lemma mc_loop_S fuel value x : mc_loop (S fuel) value x =
+  match peek1 (rest x) with
+  | None => MDone value true x
+  | Some _ =>
+      match pop1 true false x with
+      | PopMIL => MMIL
+      | PopEOF x' => MDone value true x'
+      | PopOk c x' => let v := value ++ c in if ends_with (s "*/") v then MDone v false x' else mc_loop fuel v x'
+      end
+  end.
+Proof. reflexivity. Qed.
+Lemma char_loop_S fuel l0 c0 value chars x : char_loop (S fuel) l0 c0 value chars x =
+  match pop1 false true x with
+  | PopMIL => CMIL
+  | PopEOF x' =>
+      CDone value chars (add_err (from_name (s "UNEXPECTED_EOF_CHR") lv_error [mkhl l0 c0 (Some (zl value)) None]) x')
+  | PopOk c x' =>
+      if is_nl c then
+        CDone value chars
+          (add_err (from_name (s "UNEXPECTED_EOL_CHR") lv_error
+                      [mkhl l0 c0 (Some (zl value)) None;
+                       mkhl l0 (c0 + zl value) (Some 1) (Some (s "Perhaps you forgot a single quote (')?"))])
+                   (mkst (rest x) (off x) (line x) (col x) (errs x')))
+      else if str_eqb c [39%N] then CDone (value ++ c) chars x'
+      else char_loop fuel l0 c0 (value ++ c) (S chars) x'
+  end.
+Proof. reflexivity. Qed.
+
 Lemma ident_loop_reads : forall fuel value x v' x', ident_loop fuel value x = IDone v' x' ->
   exists t, v' = value ++ t /\ reads false x t x'.
 Proof.
-  induction fuel as [|fuel IH]; intros value x v' x' H; cbn [ident_loop] in H; [discriminate|].
+  induction fuel as [|fuel IH]; intros value x v' x' H; [cbn in H; discriminate|]. rewrite ident_loop_S in H.
   assert (Hdone : IDone value x = IDone v' x' -> exists t, v' = value ++ t /\ reads false x t x').
   { intros E; inversion E; subst. exists []. split; [now rewrite app_nil_r|apply reads_refl]. }
   destruct (rest x) as [|c r] eqn:Er; [now apply Hdone|].
-  destruct (is_ident_char c); cbn [negb] in H; [|now apply Hdone].
+  destruct (negb (is_ident_char c)); [now apply Hdone|].
   destruct (pop1 false false x) as [t x1|x1|] eqn:Ep; try discriminate.
   destruct (IH _ _ _ _ H) as [t2 [-> Hr]]. exists (t ++ t2). split; [now rewrite app_assoc|].
   apply (reads_trans false x t x1); [|exact Hr]. apply (pop1_reads false false false); [assumption|apply tabs_ok_plain].
@@ -675,7 +742,7 @@ Qed.
 Lemma lc_loop_reads : forall fuel value x v' x', lc_loop fuel value x = LDone v' x' ->
   exists t, v' = value ++ t /\ reads false x t x'.
 Proof.
-  induction fuel as [|fuel IH]; intros value x v' x' H; cbn [lc_loop] in H; [discriminate|].
+  induction fuel as [|fuel IH]; intros value x v' x' H; [cbn in H; discriminate|]. rewrite lc_loop_S in H.
   assert (Hdone : LDone value x = LDone v' x' -> exists t, v' = value ++ t /\ reads false x t x').
   { intros E; inversion E; subst. exists []. split; [now rewrite app_nil_r|apply reads_refl]. }
   destruct (peek1 (rest x)) as [[c n]|]; [|now apply Hdone].
@@ -689,7 +756,7 @@ Qed.
 Lemma string_loop_reads : forall fuel value x v' cl x', string_loop fuel value x = SDone v' cl x' ->
   exists t, v' = value ++ t /\ reads false x t x'.
 Proof.
-  induction fuel as [|fuel IH]; intros value x v' cl x' H; cbn [string_loop] in H; [discriminate|].
+  induction fuel as [|fuel IH]; intros value x v' cl x' H; [cbn in H; discriminate|]. rewrite string_loop_S in H.
   destruct (peek1 (rest x)) as [[c n]|].
   2: { inversion H; subst. exists []. split; [now rewrite app_nil_r|apply reads_refl]. }
   destruct (pop1 false true x) as [t x1|x1|] eqn:Ep; try discriminate.
@@ -704,7 +771,7 @@ Qed.
 Lemma char_loop_reads : forall fuel l0 c0 value chars x v' ch' x', char_loop fuel l0 c0 value chars x = CDone v' ch' x' ->
   exists t, v' = value ++ t /\ reads false x t x'.
 Proof.
-  induction fuel as [|fuel IH]; intros l0 c0 value chars x v' ch' x' H; cbn [char_loop] in H; [discriminate|].
+  induction fuel as [|fuel IH]; intros l0 c0 value chars x v' ch' x' H; [cbn in H; discriminate|]. rewrite char_loop_S in H.
   destruct (pop1 false true x) as [t x1|x1|] eqn:Ep; try discriminate.
   - pose proof (pop1_reads false false true x t x1 Ep (tabs_ok_escape t)) as Hr1.
     destruct (is_nl t).
@@ -720,7 +787,7 @@ Qed.
 Lemma mc_loop_reads : forall fuel value x v' eof x', mc_loop fuel value x = MDone v' eof x' ->
   exists t, v' = value ++ t /\ reads true x t x'.
 Proof.
-  induction fuel as [|fuel IH]; intros value x v' eof x' H; cbn [mc_loop] in H; [discriminate|].
+  induction fuel as [|fuel IH]; intros value x v' eof x' H; [cbn in H; discriminate|]. rewrite mc_loop_S in H.
   destruct (peek1 (rest x)) as [[c n]|].
   2: { inversion H; subst. exists []. split; [now rewrite app_nil_r|apply reads_refl]. }
   destruct (pop1 true false x) as [t x1|x1|] eqn:Ep; try discriminate.
@@ -758,7 +825,7 @@ Lemma parse_char_literal_text x : tok_ok x (parse_char_literal x).
 Proof.
   unfold parse_char_literal.
   destruct (quote_prefix 39%N quote_prefixes x) as [[pre x1|x1|]|] eqn:Eq; try exact I.
-  destruct (first_is 39%N (rest x1)); cbn [negb]; [|exact I].
+  destruct (negb (first_is 39%N (rest x1))); [exact I|].
   destruct (pop1 false false x1) as [q x2|x2|] eqn:Ep; try exact I.
   destruct (char_loop char_loop_bound (line x) (col x) (pre ++ q) 0 x2) as [value chars x3|] eqn:Ec; [|exact I].
   cbv zeta. cbn [tok_ok]. exists value. split; [reflexivity|]. change (tok_cm _) with false.
@@ -772,7 +839,7 @@ Lemma parse_string_literal_text x : tok_ok x (parse_string_literal x).
 Proof.
   unfold parse_string_literal. destruct (peek1 (rest x)); [|exact I].
   destruct (quote_prefix 34%N quote_prefixes x) as [[pre x1|x1|]|] eqn:Eq; try exact I.
-  destruct (first_is 34%N (rest x1)); cbn [negb]; [|exact I].
+  destruct (negb (first_is 34%N (rest x1))); [exact I|].
   destruct (pop1 false false x1) as [q x2|x2|] eqn:Ep; try exact I.
   destruct (string_loop (S (List.length (rest x2))) (pre ++ q) x2) as [value closed x3| |] eqn:Ec; try exact I.
   cbv zeta. cbn [tok_ok]. exists value. split; [reflexivity|]. change (tok_cm _) with false.
@@ -789,7 +856,7 @@ Lemma parse_identifier_text_val x : match parse_identifier x with
   | _ => True end.
 Proof.
   unfold parse_identifier. destruct (rest x) as [|c r] eqn:Er; [exact I|].
-  destruct (is_ident_start c); cbn [negb]; [|exact I].
+  destruct (negb (is_ident_start c)); [exact I|].
   destruct (pop1 false false x) as [v x1|x1|] eqn:Ep; cbn [of_popres]; try exact I.
   destruct (ident_loop (S (List.length (rest x1))) v x1) as [value x2|e] eqn:Ei; [|exact I].
   destruct (ident_loop_reads _ _ _ _ _ Ei) as [t [-> Hr]].
@@ -866,7 +933,7 @@ Proof. intros H. destruct (popn_reads _ _ _ _ _ H) as [t' [-> Hr]]. exact Hr. Qe
 Lemma parse_operator_text x : tok_ok x (parse_operator x).
 Proof.
   unfold parse_operator. destruct (peek1 (rest x)) as [[char n]|]; [|exact I].
-  destruct (is_substr char op_start_chars); cbn [negb]; [|exact I]. cbv zeta.
+  destruct (negb (is_substr char op_start_chars)); [exact I|]. cbv zeta.
   assert (H1 : tok_ok x (op_token x (pop1 false false x))).
   { apply op_token_text. intros t x1 E. apply (pop1_reads false false false); [assumption|apply tabs_ok_plain]. }
   assert (H2 : tok_ok x (op_token x (popn 2 x []))) by (apply op_token_text; intros t x1 E; now apply (popn0_reads 2)).
@@ -891,7 +958,7 @@ Qed.
 Lemma parse_line_comment_text x : tok_ok x (parse_line_comment x).
 Proof.
   unfold parse_line_comment. destruct (raw_peek 2 (rest x)) as [r|]; [|exact I].
-  destruct (str_eqb r (s "//")); cbn [negb]; [|exact I]. apply of_popres_ok. intros v x1 E.
+  destruct (negb (str_eqb r (s "//"))); [exact I|]. apply of_popres_ok. intros v x1 E.
   destruct (lc_loop (S (List.length (rest x1))) v x1) as [value x2| |] eqn:El; try exact I.
   destruct (lc_loop_reads _ _ _ _ _ El) as [t [-> Hr]]. cbn [tok_ok]. exists (v ++ t). split; [reflexivity|].
   change (tok_cm _) with false. apply (reads_trans false x v x1); [now apply (popn0_reads 2)|exact Hr].
@@ -904,14 +971,15 @@ Lemma parse_integer_literal_text uw ud x : tok_ok x (parse_integer_literal uw ud
 Proof.
   unfold parse_integer_literal. destruct (int_match uw ud (rest x)) as [[[p c] sfx]|]; [|exact I]. cbv zeta.
   apply of_popres_ok. intros slice x1 E. cbn [tok_ok]. exists slice. split; [reflexivity|]. change (tok_cm _) with false.
-  eapply reads_same_r; [|exact (popn0_reads _ _ _ _ E)].
-  eapply same_pos_trans.
-  - instantiate (1 := if str_in sfx integer_suffixes then x1 else _).
-    destruct (str_in sfx integer_suffixes); [apply same_pos_refl|].
-    destruct sfx as [|c1 sfx']; [apply same_pos_refl|]. destruct (chr_in c1 (s "+-")); apply same_pos_add_err.
-  - destruct (str_in p [s "0b"; s "0B"]); [apply same_pos_check_bad_prefix|].
-    destruct (str_eqb p (s "0")); [apply same_pos_check_bad_prefix|].
-    destruct (str_in p [s "0x"; s "0X"]); [apply same_pos_check_bad_prefix|apply same_pos_refl].
+  set (x2 := if str_in sfx integer_suffixes then x1 else _).
+  assert (H2 : same_pos x1 x2).
+  { unfold x2. destruct (str_in sfx integer_suffixes); [apply same_pos_refl|].
+    destruct sfx as [|c1 sfx']; [apply same_pos_refl|]. destruct (chr_in c1 (s "+-")); apply same_pos_add_err. }
+  clearbody x2.
+  apply (reads_same_r false x slice x2); [|apply (reads_same_r false x slice x1 x2 H2); exact (popn0_reads _ _ _ _ E)].
+  destruct (str_in p [s "0b"; s "0B"]); [apply same_pos_check_bad_prefix|].
+  destruct (str_eqb p (s "0")); [apply same_pos_check_bad_prefix|].
+  destruct (str_in p [s "0x"; s "0X"]); [apply same_pos_check_bad_prefix|apply same_pos_refl].
 Qed.
 
 Lemma parse_float_literal_text uw ud x : tok_ok x (parse_float_literal uw ud x).
@@ -921,7 +989,7 @@ Proof.
   match goal with |- tok_ok _ (match ?v with Some err => _ | None => PNone end) => destruct v as [err|] end; [|exact I].
   apply of_popres_ok. intros slice x2 E. cbn [tok_ok]. exists slice. split; [reflexivity|]. change (tok_cm _) with false.
   eapply reads_same_l; [|exact (popn0_reads _ _ _ _ E)].
-  destruct err; [apply same_pos_sym, same_pos_add_err|apply same_pos_refl].
+  destruct err; [apply same_pos_sym; apply same_pos_add_err|apply same_pos_refl].
 Qed.
 
 (* ------------------------------------------------------------------ a first character that starts no di/trigraph *)
@@ -986,7 +1054,7 @@ Qed.
 Lemma parse_whitespace_text x : tok_ok x (parse_whitespace x).
 Proof.
   unfold parse_whitespace. destruct (rest x) as [|c r] eqn:Er; [exact I|].
-  destruct (chr_in c ws_chars); cbn [negb]; [|exact I]. cbv zeta.
+  destruct (negb (chr_in c ws_chars)); [exact I|]. cbv zeta.
   destruct (N.eqb_spec c 32) as [->|H32].
   { destruct (pop1_simple false false x 32%N r Er eq_refl) as (X & E & _ & Hr). rewrite E. cbn [of_popres tok_ok].
     exists [32%N]. split; [reflexivity|exact Hr]. }
@@ -1003,8 +1071,8 @@ Qed.
 Lemma parse_multi_line_comment_text x : tok_ok x (parse_multi_line_comment x).
 Proof.
   unfold parse_multi_line_comment. destruct (raw_peek 2 (rest x)) as [r|] eqn:Ep; [|exact I].
-  destruct (str_eqb r (s "/*")) eqn:Es; cbn [negb]; [|exact I].
-  apply str_eqb_eq in Es. subst r.
+  destruct (str_eqb r (s "/*")) eqn:Es; [|exact I].
+  apply str_eqb_eq in Es. subst r. change (negb true) with false. cbv iota.
   assert (Hr : exists r', rest x = 47%N :: 42%N :: r').
   { unfold raw_peek in Ep. destruct (rest x) as [|a [|b r']]; try discriminate; cbn in Ep; inversion Ep. now exists r'. }
   destruct Hr as [r' Hr].
@@ -1014,7 +1082,7 @@ Proof.
   { cbn [popn]. rewrite E1. cbn [app]. rewrite E2. reflexivity. }
   rewrite Epop. cbn [of_popres].
   destruct (mc_loop (S (List.length (rest X2))) (s "/*") X2) as [value eof x2| |] eqn:El; try exact I.
-  destruct (mc_loop_reads _ _ _ _ _ El) as [t [-> Hr3]]. cbn [tok_ok]. exists (s "/*" ++ t). split; [reflexivity|].
+  destruct (mc_loop_reads _ _ _ _ _ _ El) as [t [-> Hr3]]. cbn [tok_ok]. exists (s "/*" ++ t). split; [reflexivity|].
   change (tok_cm _) with true.
   assert (Hall : reads true x (s "/*" ++ t) x2).
   { change (s "/*" ++ t) with ([47%N] ++ [42%N] ++ t). apply (reads_trans true x [47%N] X1); [exact Hr1|].
